@@ -14,7 +14,7 @@
   former into the latter.  All theorems are for every normalised set / every history, any number of
   contexts and names.
 -/
-import YashModel.Variable.Sim
+import YashModel.Variable.Prefix
 import YashModel.Variable.Observe
 namespace YashModel.Variable
 
@@ -610,6 +610,103 @@ example : ((lt0.run (enterFunction [("x", .scalar "T")] ["a"])).env ["x"]) = [("
 example : ((lt0.run (functionCmd [("x", .scalar "T")] ["a"] [.getOrNew "x" .loc])).get "x")
     = some { value := some (.scalar "1") } := by decide
 
+
+/-! ### the assignments of one command prefix are performed left to right -/
+
+/-- ★ `prefix_left_to_right`: the value of assignment i+1 of a prefix is expanded in the state the
+    assignments 1…i have produced (and the first refusal ends the prefix) — for every state
+    implementation, scope and export flag -/
+theorem prefix_left_to_right {σ : Type} (I : Iface σ) (sc : Scope) (ex : Bool) (s : σ)
+    (as : List (Name × AVal)) (n : Name) (e : AVal) :
+    runAssigns I sc ex s (as ++ [(n, e)]) =
+      match runAssigns I sc ex s as with
+      | (s', true) => (s', true)
+      | (s', false) => runOps I s' (assignOps sc ex n (evalA I s' e)) := by
+  induction as generalizing s with
+  | nil =>
+    simp only [List.nil_append, runAssigns]
+    cases runOps I s (assignOps sc ex n (evalA I s e)) with
+    | mk s' b => cases b <;> rfl
+  | cons p rest ih =>
+    obtain ⟨m, f⟩ := p
+    simp only [List.cons_append, runAssigns]
+    cases runOps I s (assignOps sc ex m (evalA I s f)) with
+    | mk s' b =>
+      cases b
+      · exact ih s'
+      · rfl
+
+theorem valueOfVar_scalar (u : Variable) (x : String) (h : u.value = some (.scalar x)) :
+    valueOfVar (some u) = .scalar x := by
+  cases u with
+  | mk value la exp ro => simp only at h; subst h; rfl
+
+/-- ★ `prefix_sees_earlier_assignment`: in `a=X b=$a cmd` the lookup of `$a` is answered by the
+    `a=X` just assigned — `b` ends up with the value `X` — both for a command-less command or special
+    built-in (`Global` scope) and for a regular built-in / function / external (`Volatile` scope with
+    export, in the command's volatile context).  An "expand all values first, then assign"
+    implementation (the round-4 seeded change) gives `b` the old value of `a` and contradicts this. -/
+theorem prefix_sees_earlier_assignment (s : VariableSet) (h : Norm s) (sc : Scope) (ex : Bool)
+    (hsc : sc = .global ∨ (sc = .volatile ∧ TopVol s)) (a b : Name) (x : String) (s2 : VariableSet)
+    (hrun : runAssigns ifaceM sc ex s [(a, .lit (.scalar x)), (b, .ref a)] = (s2, false)) :
+    ∃ u, s2.get b = some u ∧ u.value = some (.scalar x) := by
+  have key : ∀ (s : VariableSet), Norm s → (sc = .global ∨ (sc = .volatile ∧ TopVol s)) → ∀ (n : Name) (v : Value),
+      Norm (runOps ifaceM s (assignOps sc ex n v)).1 ∧
+      (sc = .global ∨ (sc = .volatile ∧ TopVol (runOps ifaceM s (assignOps sc ex n v)).1)) ∧
+      ((runOps ifaceM s (assignOps sc ex n v)).2 = false →
+        ∃ u, (runOps ifaceM s (assignOps sc ex n v)).1.get n = some u ∧ u.value = some v) := by
+    intro s hs hc n v
+    rcases hc with rfl | ⟨rfl, ht⟩
+    · have := assignOps_value_global hs ex n v
+      exact ⟨this.1, Or.inl rfl, this.2⟩
+    · have := assignOps_value_volatile hs ht ex n v
+      exact ⟨this.1, Or.inr ⟨rfl, this.2.1⟩, this.2.2⟩
+  simp only [runAssigns, evalA] at hrun
+  obtain ⟨hN1, hc1, hv1⟩ := key s h hsc a (.scalar x)
+  cases h1 : runOps ifaceM s (assignOps sc ex a (.scalar x)) with
+  | mk s1 b1 =>
+    rw [h1] at hrun hN1 hc1 hv1
+    cases b1 with
+    | true => simp at hrun
+    | false =>
+      simp only at hrun hN1 hc1 hv1
+      obtain ⟨u, hu, huv⟩ := hv1 trivial
+      have hev : valueOfVar (ifaceM.get s1 a) = .scalar x := by
+        show valueOfVar (s1.get a) = _
+        rw [hu]; exact valueOfVar_scalar u x huv
+      rw [hev] at hrun
+      obtain ⟨_, _, hv2⟩ := key s1 hN1 hc1 b (.scalar x)
+      cases h2 : runOps ifaceM s1 (assignOps sc ex b (.scalar x)) with
+      | mk s3 b3 =>
+        rw [h2] at hrun hv2
+        cases b3 with
+        | true => simp at hrun
+        | false =>
+          simp only [Prod.mk.injEq, and_true] at hrun
+          subst hrun
+          exact hv2 rfl
+
+/-- ★ `temporary_assignment_lifetime` for prefixes whose values refer to variables (`a=1 b=$a cmd`):
+    whatever the prefix — references to earlier assignments included, refused half-way or not —
+    the set is what it was before once the command's volatile context is popped -/
+theorem temporary_prefix_lifetime (s : VariableSet) (h : Norm s) (temps : List (Name × AVal)) :
+    abs ((runAssigns ifaceM .volatile true (s.step (.push .volatile)).1 temps).1.step .pop).1 = abs s ∧
+    ∀ n, ((runAssigns ifaceM .volatile true (s.step (.push .volatile)).1 temps).1.step .pop).1.get n = s.get n := by
+  have hp := push_abs h .volatile
+  obtain ⟨hN, c, hc, hk⟩ := runAssigns_volatile_tail (abs s) true temps (s.step (.push .volatile)).1 hp.2
+    ⟨⟨.volatile, fun _ => none⟩, hp.1, rfl⟩
+  have hpop := pop_abs hN
+  have he : abs ((runAssigns ifaceM .volatile true (s.step (.push .volatile)).1 temps).1.step .pop).1 = abs s := by
+    show abs (VariableSet.popContext _) = _
+    rw [hpop.1, hc]; exact pop_cons _ _ (abs_ne_nil h)
+  have hNp : Norm ((runAssigns ifaceM .volatile true (s.step (.push .volatile)).1 temps).1.step .pop).1 := hpop.2
+  exact ⟨he, fun n => by rw [get_abs hNp, get_abs h, he]⟩
+
+/-- non-vacuity: `a=1; a=2 b=$a cmd` — inside the command `b` is 2 (not the outer 1), exported -/
+example : ((runAssigns ifaceM .volatile true (lt0.step (.push .volatile)).1
+      [("x", .lit (.scalar "2")), ("y", .ref "x")]).1.env ["x", "y"]) = [("x", "2"), ("y", "2")] := by decide
+example : ((runAssigns ifaceM .global false lt0 [("x", .lit (.scalar "2")), ("y", .ref "x")]).1.get "y")
+    = some { value := some (.scalar "2") } := by decide
 
 /-! ### non-vacuity: a set with a hidden global, a local and a temporary variable -/
 
